@@ -94,7 +94,7 @@ func (ctx *Ctx) GenVC(fc *FuncContract) (res *FuncResult) {
 		}
 		fvRids = append(fvRids, Rid(t))
 		if pt, ok := U(fv.Type()).(*types.Pointer); ok {
-			vc.captured = append(vc.captured, capturedCell{t, pt.Elem()})
+			vc.captured = append(vc.captured, capturedCell{t, pt.Elem(), fv})
 			if v, err := vc.loadAt(entry, t, pt.Elem()); err == nil {
 				entry.assume(vc.rangeAssumption(v, pt.Elem(), entry.alloc))
 			}
@@ -227,7 +227,7 @@ func (ctx *Ctx) GenVC(fc *FuncContract) (res *FuncResult) {
 		}
 		return ""
 	}
-	if (fc.Appends != nil || fc.SplitReturns) && len(fr.rets) >= 2 && len(fr.rets) <= 8 {
+	if (fc.Appends != nil || fc.SplitReturns) && len(fr.rets) >= 2 && len(fr.rets) <= 16 {
 		for k, rs := range fr.rets {
 			if msg := exitObls(rs.st.clone(), rs.vals, fmt.Sprintf("@%d", k+1), rs.blk); msg != "" {
 				res.Err = msg
